@@ -39,6 +39,16 @@ CHECKS = {
         note="Small scope (N<=3); coarse kinds; the N=3/<=2-edge stratum is only sampled in thorough and attributed by signature (cyclic vs. acyclic) rather than by bitmap.",
         design="§5 C02",
     ),
+    "C03": dict(
+        category="exploration",
+        technique="Hypothesis-constructed specs through generate_client, in-process import of the generated package, conforming JSON instances drawn from an independent schema-semantics model (pbt/refmodel/instances.py), round-trip through the package's OWN converter, comparison modulo the stated tolerance; root-cause bucketing + validity-preserving ddmin",
+        text="About 20 000 (schema, document) pairs per quick run: every named schema of every generated package is fed conforming "
+             "documents (required + optional subsets, nullable nulls, all string formats, nested lists/maps/objects, keyword-like and "
+             "colliding property names) and unstructure(structure(doc)) must equal doc. Found 8 root causes so far (3 repaired, 5 open "
+             "and excluded by construction with counts).",
+        note="Union-typed schemas/fields belong to C14; `default` values are not generated (the statement does not say whether an absent optional may come back as its default); defects behind an excluded trigger are masked until that finding is fixed.",
+        design="§5 C03",
+    ),
     "C08": dict(
         category="exploration",
         technique="same exhaustive graph strata + depth grid (4 chain kinds x PYOPENAPI_MAX_DEPTH in {5,10,50,150} x lengths around and far beyond the limit, differential against an unlimited run) + Hypothesis multigraphs; enter/exit wrapped from the harness; invariants on the tracker's rest state, terminal states, declared names, RecursionError and a deterministic termination budget",
